@@ -730,6 +730,25 @@ def m_str_join(it, callee, args, m):
     return StringObj(out)
 
 
+def m_str_lines(it, callee, args, m):
+    """str::lines: split at line feeds (decided by forking on each character), a trailing carriage return of a line is
+    stripped, a final empty line is not yielded"""
+    src = deref(args[0])
+    lines, cur = [], []
+    n = len(src.chars)
+    for i, c in enumerate(src.chars):
+        if it.ctx.branch(c.t == 10):
+            if cur and it.ctx.branch(cur[-1].t == 13):
+                cur = cur[:-1]
+            lines.append(cur)
+            cur = []
+        else:
+            cur.append(c)
+    if cur:
+        lines.append(cur)
+    return SeqIter([Ref(Cell(StringObj(l))) for l in lines])
+
+
 def m_str_to_ascii_lowercase(it, callee, args, m):
     return StringObj([Int(ascii_lower(c), 32, False) for c in deref(args[0]).chars])
 
@@ -2195,6 +2214,8 @@ def m_vec_resize(it, callee, args, m):
 
 IT = r"(?:<.* as (?:Iterator|DoubleEndedIterator|ExactSizeIterator|IntoIterator)>|Iterator|DoubleEndedIterator)"
 MODELS = [
+    (r"^(std::|alloc::)?slice::<impl \[(std::string::)?String\]>::join::<&str>$", m_str_join),
+    (r"^(core|std|alloc)::str::<impl str>::lines$", m_str_lines),
     (r"^<(std::option::)?Option<.*> as Default>::default$", lambda it, c, a, m: NONE()),
     (r"^<bool as Default>::default$", lambda it, c, a, m: z3.BoolVal(False)),
     (r"^<(u8|u16|u32|u64|usize) as Default>::default$", lambda it, c, a, m: Int(0, {"u8": 8, "u16": 16, "u32": 32}.get(m.group(1), 64), False)),
